@@ -9,6 +9,7 @@ import (
 	"go/types"
 	"sort"
 	"strings"
+	"sync"
 
 	"golang.org/x/tools/go/packages"
 	"golang.org/x/tools/go/types/typeutil"
@@ -348,12 +349,12 @@ func evalLit(info *types.Info, cl *ast.CompositeLit, t *Table) {
 
 // ByteSwitch is the partition of the 256 byte values by a switch statement.
 type ByteSwitch struct {
-	Stmt    *ast.SwitchStmt
-	Clauses []*ast.CaseClause
-	Of      [256]int // clause index for each byte; -1 = no clause (falls out of the switch)
-	Default int      // index of default clause or -1
-	Labels  [][]int  // per clause: the byte values of its labels (nil for default)
-	NonConst bool    // some case label was not a constant byte
+	Stmt     *ast.SwitchStmt
+	Clauses  []*ast.CaseClause
+	Of       [256]int // clause index for each byte; -1 = no clause (falls out of the switch)
+	Default  int      // index of default clause or -1
+	Labels   [][]int  // per clause: the byte values of its labels (nil for default)
+	NonConst bool     // some case label was not a constant byte
 }
 
 // EvalByteSwitch evaluates the case labels of sw (a tag switch) as byte
@@ -626,7 +627,68 @@ func ReturnIsError(info *types.Info, ret *ast.ReturnStmt) bool {
 		case "fmt.Errorf", "errors.New":
 			return true
 		}
+		// a module function every return of which is a definite error (errInvalidNumber and the like)
+		if f := Callee(info, call); f != nil && alwaysErrors(f.Origin(), 0) {
+			return true
+		}
 		return false
 	}
 	return true
+}
+
+type errCtor struct {
+	fd   *ast.FuncDecl
+	info *types.Info
+}
+
+var (
+	errCtorMu   sync.Mutex
+	errCtors    = map[*types.Func]errCtor{}
+	errCtorBusy = map[*types.Func]bool{}
+)
+
+// registerErrorCtor remembers the declaration of module functions with the single result `error`.
+func registerErrorCtor(obj types.Object, fd *ast.FuncDecl, info *types.Info) {
+	f, ok := obj.(*types.Func)
+	if !ok || fd.Body == nil || fd.Recv != nil {
+		return
+	}
+	res := f.Type().(*types.Signature).Results()
+	if res.Len() != 1 || !IsErrorType(res.At(0).Type()) {
+		return
+	}
+	errCtorMu.Lock()
+	errCtors[f] = errCtor{fd, info}
+	errCtorMu.Unlock()
+}
+
+func alwaysErrors(f *types.Func, depth int) bool {
+	if depth > 3 {
+		return false
+	}
+	errCtorMu.Lock()
+	c, ok := errCtors[f]
+	busy := errCtorBusy[f]
+	if ok && !busy {
+		errCtorBusy[f] = true
+	}
+	errCtorMu.Unlock()
+	if !ok || busy {
+		return false
+	}
+	defer func() { errCtorMu.Lock(); delete(errCtorBusy, f); errCtorMu.Unlock() }()
+	n, all := 0, true
+	ast.Inspect(c.fd.Body, func(m ast.Node) bool {
+		switch x := m.(type) {
+		case *ast.FuncLit:
+			return false
+		case *ast.ReturnStmt:
+			n++
+			if !ReturnIsError(c.info, x) {
+				all = false
+			}
+		}
+		return true
+	})
+	return n > 0 && all
 }
